@@ -27,6 +27,7 @@ MODEL_SWITCHES = [
     ("MC_Conc4", "MC_Conc4_bug7.cfg", "ScanOK", "cursor keeps its rank when the permutation of its border changed"),
     ("MC_Conc4", "MC_Conc4_bug8.cfg", "ScanOK", "right-to-left scan starting from a fresh version instead of the one of the validated descent (seeds C04b / C04c)"),
     ("MC_Conc4", "MC_Conc4_bug9.cfg", "Termination", "seed C09d: the new border's parent pointer is stored after the parent was unlocked (lock_parent of its remover spins on the root lock)"),
+    ("MC_Conc4", "MC_Conc4_bug10.cfg", "NvOK", "seed C06d: an insert strictly between two keys of a non-full border does not mark the version (MIDDLE_INSERT_NO_MARK)"),
     ("MC_Conc8", "MC_Conc8_bug1.cfg", "ScanOK", "seed C04d: scan_border keeps what it pushed when the nested scan of a next layer failed and it reads the border again"),
     ("MC_Conc9", "MC_Conc9_bug1.cfg", "ScanOK", "cursor across a link keeps its rank when retry_after_fb adopted a changed permutation"),
     ("MC_Conc6", "MC_Conc6_bug1.cfg", "ParentOK", "lock_parent without the re-check of the parent after locking"),
